@@ -147,7 +147,10 @@ struct Transport::Impl
                             // (dropped bytes corrupt the stream irrecoverably), so a
                             // retry on the same session re-reports BufferOverflow.
                             // The caller must close the session. The closed entry is
-                            // still GC-reclaimable (overflow does not block the GC gate).
+                            // still GC-reclaimable once the overflow has been REPORTED
+                            // (see overflowReported); an overflow nobody was told about
+                            // blocks the GC gate exactly like undrained data does.
+    bool overflowReported{false}; // receiveSync has returned BufferOverflow at least once
   };
   std::unordered_map<SessionId, std::shared_ptr<SyncReceiveBuffer>> receiveBuffers;
 
@@ -541,7 +544,11 @@ struct Transport::Impl
         {
           for (auto it = receiveBuffers.begin(); it != receiveBuffers.end();)
           {
+            // An unreported overflow is undelivered information, like undrained data: if the
+            // entry were reclaimed now, a late receiveSync would create a fresh buffer and time
+            // out - the reader would never learn that bytes were dropped.
             if (it->first != sid && it->second->closed && !it->second->hasData &&
+                (!it->second->overflow || it->second->overflowReported) &&
                 it->second->waiters == 0 && !it->second->flushing)
             {
               it = receiveBuffers.erase(it);
@@ -1030,6 +1037,7 @@ inline ReceiveResult Transport::receiveSync(SessionId sid, void *buffer, std::si
   // dropped-data condition from a clean EOF (N-2).
   if (buf->overflow)
   {
+    buf->overflowReported = true; // from now on the closed entry may be reclaimed by the GC
     return ReceiveResult::err(TransportErrorInfo{TransportError::BufferOverflow,
                                                  "sync receive buffer overflow (data dropped)"});
   }
